@@ -111,6 +111,9 @@ func (fs *fsMutable) deleteNSEntry(p fuseops.InodeID, c string, want int) error 
 	}
 
 	pNode := pn.(*nodeEntry)
+	if !pNode.attr.Mode.IsDir() {
+		return jfuse.ENOTDIR
+	}
 
 	cLE, found, lk := fs.lookup(p, c)
 	if !found {
@@ -162,6 +165,10 @@ func (fs *fsMutable) LookUpInode(ctx context.Context, op *fuseops.LookUpInodeOp)
 	defer fs.opEnd(t0, op, err)
 
 	nodeStore, lookupTree := fs.atomicGetReferences()
+
+	if pn, ok := nodeStore.Get(formKey(op.Parent)); ok && !pn.(*nodeEntry).attr.Mode.IsDir() {
+		return jfuse.ENOTDIR
+	}
 
 	childEntry, found, _ := lookup(op.Parent, op.Name, lookupTree)
 
